@@ -83,6 +83,10 @@ func (h *harness) jsRecords(r *vh.Rng, idx int) {
 	h.sum.Hist(fmt.Sprintf("js-records:%d-%d", nrec/10*10, nrec/10*10+9))
 	out := runSchema(schemaText(f, ds), c.Input, nil)
 	h.sum.Count(c.Decls+c.Input, true)
+	if out.Clobbered != "" {
+		h.sum.Fail("bytes returned by Transform.Read changed after later Reads (the caller keeps them)", c, out.Clobbered)
+		return
+	}
 	if out.Rejected || out.Panic != "" || out.Fatal != "" || len(out.Recs) != nrec {
 		h.sum.Fail("many-records stream: schema or run did not complete", c,
 			map[string]interface{}{"rejected": out.RejectMsg, "panic": out.Panic, "fatal": out.Fatal, "records": len(out.Recs), "expected_records": nrec})
@@ -169,4 +173,61 @@ func (h *harness) jsReplay(c Case, ds Decls) {
 			}
 		}
 	}
+}
+
+// ---- third stream: type casts of awkward literals (Go-side oracle only) -------------------------
+// strconv.ParseInt(s, 10, 64) / ParseFloat(s, 64) / ParseBool(s) on the trimmed text: zero-padded
+// decimals are decimals, base prefixes and underscores fail the record, Inf / NaN parse but cannot
+// be emitted.  Includes the literals outside the model's float class (hex floats, Inf, NaN).
+var castLits = []string{"010", "0100", "-017", "0020", "08", "09", "0x1F", "0o17", "0b11", "1_000", "+5", " 7 ", "7",
+	"1e3", "1E+2", "0x1p-2", "Inf", "-inf", "NaN", "nan", "Infinity", "1_0.5", "010.5", ".5", "5.", "1e400", "0x10",
+	"TRUE", "t", "1", "yes", "T", "false", "F", "0", "no", "True", "tRUE", ""}
+
+func (h *harness) castRecords(r *vh.Rng, idx int) {
+	f := formats["xml"]
+	cols := []string{"a", "b", "c"}
+	nrec := r.Between(1, 3)
+	var sb strings.Builder
+	sb.WriteString("<r>")
+	for i := 0; i < nrec; i++ {
+		sb.WriteString("<n>")
+		for _, cn := range cols {
+			sb.WriteString("<" + cn + ">" + xmlEsc(castLits[r.Pick(len(castLits))]) + "</" + cn + ">")
+		}
+		sb.WriteString("</n>")
+	}
+	sb.WriteString("</r>")
+	fo := &GDecl{HasObject: true, XPath: f.Target}
+	nmem := r.Between(1, 3)
+	for i := 0; i < nmem; i++ {
+		d := &GDecl{Type: sp(r.PickStr("int", "int", "float", "boolean", "string")), NoTrim: r.Chance(0.15), Keep: r.Chance(0.2)}
+		switch r.Pick(3) {
+		case 0:
+			d.Const = sp(castLits[r.Pick(len(castLits))])
+		case 1:
+			d.XPath = sp(cols[r.Pick(len(cols))])
+		default:
+			d.External = sp(r.PickStr("ext2", "ext3", "ext4", "ext5"))
+		}
+		fo.Object = append(fo.Object, KV{fmt.Sprintf("m%d", i), d})
+	}
+	ds := Decls{"FINAL_OUTPUT": fo}
+	c := Case{Format: "xml", Decls: ds.JSON(), Input: sb.String(), Note: "type casts of awkward literals"}
+	vh.Current(h.o, c)
+	h.sum.Hist("stream:casts")
+	out := runSchema(schemaText(f, ds), c.Input, fo)
+	h.sum.Count(c.Decls+c.Input, true)
+	if out.Rejected || out.Panic != "" || out.Clobbered != "" || len(out.Recs) != nrec {
+		h.sum.Fail("cast stream: schema or run did not complete", c,
+			map[string]interface{}{"rejected": out.RejectMsg, "panic": out.Panic, "clobbered": out.Clobbered, "records": len(out.Recs)})
+		return
+	}
+	for _, ro := range out.Recs {
+		if ro.On != ro.Read || ro.Off != ro.Read {
+			h.sum.Fail("cast stream: Read, cached and uncached ParseNode differ", c, map[string]interface{}{"read": ro.Read, "on": ro.On, "off": ro.Off})
+			return
+		}
+	}
+	h.checkMembers(c, "type cast (strconv base 10 / ParseFloat / ParseBool on the trimmed text)", out.Recs,
+		func(i int) []memberExp { return out.Recs[i].Direct }, true, "oracle:cast-direct")
 }
